@@ -64,6 +64,34 @@ def new_rules(ctx, rule):
 
 
 
+def role_binding_rules(ctx, rule):
+    """Prio2::verify_init acts in the role its aggregator id says (shared with C18): the is_leader flag handed on is
+    role_try_from(agg_id)?, and the query point depends on the verification key and the nonce"""
+    try:
+        f = ctx.fn(rule, name="verify_init", trait="Aggregator", self_adt="vdaf::prio2::Prio2")
+        g = ctx.guards(f)
+        key = "%s:%s:role-from-aggregator-id" % (rule, f.id)
+        calls = [g.eb.call_expr(t) for bi, t in f.body.calls() if t.callee.name == "verify_init_with_query_rand"]
+        role = Try(Call("role_try_from", Arg(4)))
+        if len(calls) == 1 and len(calls[0][2]) >= 4 and role(calls[0][2][3]):
+            ctx.ok(rule, key, "verify_init_with_query_rand(.., is_leader = role_try_from(agg_id)?)", loc=f.loc)
+        else:
+            ctx.bad(rule, key, "the role Prio2::verify_init acts in is not role_try_from(agg_id)?: %s" % [fmt(c[2][-1])[:100] for c in calls], loc=f.loc)
+        key = "%s:%s:query-point-from-key-and-nonce" % (rule, f.id)
+        qp = calls[0][2][1] if len(calls) == 1 else None
+        txt_ok = qp is not None and Mentions(Call("choose_eval_at"))(qp)
+        mac_new = [g.eb.call_expr(t) for bi, t in f.body.calls() if t.callee.name == "new_from_slice"]
+        mac_upd = [g.eb.call_expr(t) for bi, t in f.body.calls() if t.callee.name == "update"]
+        good = txt_ok and len(mac_new) == 1 and Mentions(Arg(2))(mac_new[0]) and any(Mentions(Arg(6))(u) for u in mac_upd)
+        if good:
+            ctx.ok(rule, key, "query point = choose_eval_at(Prng(HMAC(verify_key, nonce)))", loc=f.loc)
+        else:
+            ctx.bad(rule, key, "the Prio2 query point is not derived from HMAC(verify_key) over the nonce", loc=f.loc)
+    except Skip:
+        pass
+    ctx.floor(rule, 2)
+
+
 def run(ctx):
     rule = "R-C19.T.role"
     try:
@@ -106,6 +134,8 @@ def run(ctx):
     except Skip:
         pass
     ctx.floor(rule, 1)
+
+    role_binding_rules(ctx, "R-C19.T.role-binding")
 
     rule = "R-C19.G.combine"
     try:
